@@ -29,6 +29,7 @@ import (
 //	KA r|l <conn> <sess> <ping>   a session dies and, 100ms later, an attempt becomes possible
 //	C                             one RPC through the MultiClientConn
 //	I                             a quiet period longer than the channel's idle timeout (header idle=1)
+//	H | HR                        the newest session's health check records a failed ping (session stays open) / a good one again
 //
 // after every event: "= sessions=<ids> dialable=<ids> can=<0|1>" (+ " rpc=<code>" for C)
 func vcScenario(lines []string, out func(string)) {
@@ -118,6 +119,18 @@ func vcScenario(lines []string, out func(string)) {
 			var a vmAttempt
 			fmt.Sscanf(f[2]+" "+f[3]+" "+f[4], "%d %d %d", &a.conn, &a.sess, &a.ping)
 			env.offers <- a
+			return true
+		case "H", "HR":
+			// the health check of the first registered session reports a failed ping (the session stays open) / recovers
+			conns := mgr.GetMuxConnections()
+			var ids []string
+			for id := range conns {
+				ids = append(ids, id)
+			}
+			sort.Strings(ids)
+			if len(ids) > 0 {
+				session.VerifMarkPingFailed(conns[ids[len(ids)-1]], f[0] == "H")
+			}
 			return true
 		case "I":
 			// a quiet period longer than the idle timeout
